@@ -548,7 +548,11 @@ impl<Context: ServerContext> HttpRouter<Context> {
             if let Some(hdrs) = err.headers.as_deref_mut() {
                 hdrs.reserve(node.methods.len());
             }
-            for allowed in node.methods.keys() {
+            for (allowed, handlers) in node.methods.iter() {
+                // Only list methods that are served at the requested version.
+                if find_handler_matching_version(handlers, version).is_none() {
+                    continue;
+                }
                 err.add_header(http::header::ALLOW, allowed)
                     .expect("method should be a valid allow header");
             }
